@@ -1311,12 +1311,12 @@ func (txn *KVTxn) filterAggressiveLockedKeys(lockCtx *tikv.LockCtx, allKeys [][]
 				// This should be an unreachable path.
 				return nil, errors.Errorf("Txn %v Retrying aggressive locking with ForUpdateTS (%v) less than previous LockedWithConflictTS (%v)", txn.StartTS(), lockCtx.ForUpdateTS, lastResult.Value.LockedWithConflictTS)
 			}
-			delete(txn.aggressiveLockingContext.lastRetryUnnecessaryLocks, keyStr)
 			if canTrySkip &&
 				lastResult.trySkipLockingOnRetry(lockCtx.ReturnValues, lockCtx.CheckExistence) &&
 				!txn.mayAggressiveLockingLastLockedKeysExpire() {
 				// We can skip locking it since it's already locked during last attempt to aggressive locking, and
 				// we already have the information that we need.
+				delete(txn.aggressiveLockingContext.lastRetryUnnecessaryLocks, keyStr)
 				if lockCtx.Values != nil {
 					lockCtx.Values[keyStr] = lastResult.Value
 				}
@@ -1711,6 +1711,10 @@ func (txn *KVTxn) lockKeys(ctx context.Context, lockCtx *tikv.LockCtx, fn func()
 				err = errors.Errorf("pessimistic lock request to key %v returns LockedWithConflictTS(%v) not greater than requested ForUpdateTS(%v)",
 					redact.Key(key), val.LockedWithConflictTS, lockCtx.ForUpdateTS)
 			}
+			// The key is locked again in the current attempt. Until here it stays in lastRetryUnnecessaryLocks, so
+			// that a lock of the previous attempt which this request did not take over (lock-only-if-exists on a
+			// missing key, or a failed request) is still released with the other redundant locks.
+			delete(txn.aggressiveLockingContext.lastRetryUnnecessaryLocks, keyStr)
 			txn.aggressiveLockingContext.currentLockedKeys[keyStr] = tempLockBufferEntry{
 				HasReturnValue:        lockCtx.ReturnValues,
 				HasCheckExistence:     lockCtx.CheckExistence,
